@@ -2,7 +2,7 @@
 C09 — every public load/dump entry point agrees with the class-level codec.
 
 Proof:  Molli.Props.C09 (dispatch_agrees: ∀ cell, observed = spec, by `decide +kernel` over the generated
-        432-row table lifted by the enumeration lemma; corollaries lists_where_promised, unsupported_is_valueerror,
+        2160-row table lifted by the enumeration lemma; corollaries lists_where_promised, unsupported_is_valueerror,
         name_honoured, stream_untouched, reaches_class_codec, class_failure_propagates, raises_only_documented)
         + Molli.Gen.Dispatch (regenerated on every run by spying on the class methods of the live repository).
 Tie:    (1) the table is exhaustive over the matrix — complete tie for the dispatch; every row is also compared with
@@ -249,8 +249,11 @@ def replay_obj(cell, sample, variant, observed, demanded, fmt):
 
 def describe_call(cell, fmt) -> str:
     """`fmt` is the format argument actually passed (None = deduced from the path suffix)"""
-    e, f, k, o, n = cell
-    fs = repr(fmt)
+    e, f, k, o, n, pf = cell
+    suffix, fmt_arg = L.path_form(cell, fmt)
+    fs = repr(fmt_arg if k == "path" else fmt)
+    if k == "path":
+        k = f"path with suffix {suffix!r}"
     nm = f", name={L.GIVEN_NAME!r}" if n == "given" else ""
     ot = {"molecule": "'molecule'", "ensemble": "'ensemble'", "structure": "ml.Structure"}[o]
     if e in ("load", "load_all"):
@@ -303,7 +306,7 @@ def exc_name(e):
 
 def content_cell(ctx, spy, cell, sample, fmt_for_unsupported=None):
     """entry point vs class method on the same input. Returns number of comparisons made."""
-    e, f, k, o, n = cell
+    e, f, k, o, n, pf = cell
     name = L.GIVEN_NAME if n == "given" else None
     if f == "unsupported":
         return 0
@@ -311,12 +314,14 @@ def content_cell(ctx, spy, cell, sample, fmt_for_unsupported=None):
         return 0       # refused cells: covered exhaustively by the table
     if e in ("load_all", "loads_all") and o == "ensemble":
         return 0
-    variants = [("explicit-fmt", dict(fmt=f))]
-    if e in ("load", "load_all"):
-        variants += [("fmt-from-suffix", dict(fmt=None)), ("str-path", dict(fmt=f, path_as_str=True))]
-    if e == "dump" and k == "path":
-        variants += [("fmt-from-suffix", dict(fmt=None)), ("str-path", dict(fmt=f, path_as_str=True)),
-                     ("mode-w", dict(fmt=f, mode="w")), ("append-existing", dict(fmt=f, mode="a-existing"))]
+    # the path form (suffix of the path x format given or deduced) is part of the cell; further call variants:
+    variants = [(pf, dict(fmt=f))]
+    if pf == "explicitMatching":
+        if e in ("load", "load_all"):
+            variants += [("str-path", dict(fmt=f, path_as_str=True))]
+        if e == "dump" and k == "path":
+            variants += [("str-path", dict(fmt=f, path_as_str=True)), ("mode-w", dict(fmt=f, mode="w")),
+                         ("append-existing", dict(fmt=f, mode="a-existing"))]
     done = 0
     for vname, v in variants:
         with warnings.catch_warnings():
@@ -383,7 +388,7 @@ def cdxml_key_cases(ctx, spy, sample):
         for key in ks:
             for o in L.OTYPES:
                 for name in (None, L.GIVEN_NAME):
-                    cell = ("load", "cdxml", "path", o, "given" if name else "notgiven")
+                    cell = ("load", "cdxml", "path", o, "given" if name else "notgiven", "explicitMatching")
                     try:
                         ref, rex = L.otype_cls(o)(CDXMLFile(sample.files["cdxml"])[key]), None
                     except Exception as ex:  # noqa: BLE001
@@ -411,6 +416,141 @@ def cdxml_key_cases(ctx, spy, sample):
                         report(ctx, "C09:load:object-differs-from-class-method", tag, first_diff(a, b), "cdxml")
 
 
+def sequence_cases(ctx, spy, work: Path, contents: dict):
+    """HIDDEN STATE BETWEEN CALLS.  One process, one path used again and again while the file it names is rewritten
+    (for every format; and finally back to the first content): after every rewrite each loader must agree with the
+    class-level codec on the content of THAT moment.  `contents`: fmt -> list of texts (different inputs)."""
+    for fmt, steps in contents.items():
+        if len(steps) < 2:
+            continue
+        steps = steps + [steps[0]]
+        for e in ("load", "load_all"):
+            for o in L.OTYPES:
+                if e == "load_all" and o == "ensemble":
+                    continue
+                for name in (None, L.GIVEN_NAME):
+                    seq_compare(ctx, work, fmt, steps, e, o, name, as_str=name is None)
+
+
+def seq_compare(ctx, work, fmt, steps, e, o, name, as_str, verbose=False):
+    """write steps[0], call, compare with the class method; rewrite the SAME path with steps[1], call, compare; ..."""
+    import molli as ml
+
+    d = work / "sequence"
+    d.mkdir(exist_ok=True)
+    p = d / f"reused.{fmt}"
+    S = L.Sample({fmt: p}, {}, work, "sequence")
+    cell = (e, fmt, "path", o, "given" if name else "notgiven", "explicitMatching")
+    for i, text in enumerate(steps):
+        p.write_text(text)
+        kw = {"name": name} if name else {}
+        fmt_arg = fmt if i % 2 == 0 else None
+        with warnings.catch_warnings():
+            warnings.simplefilter("ignore")
+            try:
+                got, gex = getattr(ml, e)(str(p) if as_str else p, fmt_arg, otype=L.otype_arg(o), **kw), None
+            except Exception as ex:  # noqa: BLE001
+                got, gex = None, ex
+            ref, rex = L.class_call(cell, S, name=name)
+        ctx.case(f"sequence:{e}:{fmt}:{o}:{name}:{i}:{hash(text) & 0xffff}", nontrivial=i > 0 and rex is None)
+        ctx.count(f"sequence:{e}:{fmt}")
+        what = None
+        if verbose:
+            print(f"  call {i + 1}: entry point -> {exc_name(gex) or L.ret_enum(got)} {L.names_of(got)[:2] if gex is None else ''}"
+                  f" | class method -> {exc_name(rex) or L.ret_enum(ref)}")
+        if exc_name(gex) != exc_name(rex):
+            what = f"entry point: {exc_name(gex) or 'returned'}, class method: {exc_name(rex) or 'returned'}"
+        elif rex is None:
+            a, b = canon_value(got), canon_value(ref)
+            if a != b:
+                what = first_diff(a, b)
+        if what:
+            stage = "first call" if i == 0 else f"call {i + 1} on the same path, after the file was rewritten {i} time(s)"
+            ctx.violation(f"C09:{e}:differs-from-class-method" + ("-after-rewrite" if i else ""),
+                          f"ml.{e}(<{fmt} path>, {fmt_arg!r}, otype={o}{', name=...' if name else ''}) [{stage}]: {what}",
+                          {"sequence": {"fmt": fmt, "steps": steps[: i + 1], "entry": e, "otype": o, "name": name, "as_str": as_str}})
+            return
+
+
+def target_sequences(ctx, spy, work: Path, samples):
+    """the same target written again (mode 'w'), dumps after another object: the text is that of the CURRENT object"""
+    import molli as ml
+
+    objs = [s.objs for s in samples[:3]]
+    d = work / "sequence"
+    d.mkdir(exist_ok=True)
+    for fmt in ("xyz", "mol2"):
+        for o in L.OTYPES:
+            p = d / f"target_{o}.{fmt}"
+            for i, ob in enumerate(objs + objs[:1]):
+                obj = ob[o]
+                try:
+                    ref, rex = getattr(obj, f"dumps_{fmt}")(), None
+                except Exception as ex:  # noqa: BLE001
+                    ref, rex = None, ex
+                if rex is not None:       # the class method itself fails (Structure.dumps_mol2): take dump_<fmt>
+                    st = io.StringIO()
+                    getattr(obj, f"dump_{fmt}")(st)
+                    ref = st.getvalue()
+                try:
+                    ml.dump(obj, p, fmt if i % 2 == 0 else None, mode="w")
+                    got_file = p.read_text()
+                except Exception as ex:  # noqa: BLE001
+                    got_file = "raised " + type(ex).__name__
+                try:
+                    got_s = ml.dumps(obj, fmt)
+                except Exception as ex:  # noqa: BLE001
+                    got_s = "raised " + type(ex).__name__
+                ctx.case(f"sequence:dump:{fmt}:{o}:{i}", nontrivial=i > 0)
+                ctx.count(f"sequence:dump:{fmt}")
+                if got_file != ref:
+                    ctx.violation("C09:dump:differs-from-class-method" + ("-after-rewrite" if i else ""),
+                                  f"ml.dump(<{o}>, <same path>, mode='w') call {i + 1}: file text differs from dump_{fmt} of the current object",
+                                  {"target_sequence": {"fmt": fmt, "otype": o, "step": i}})
+                    break
+                if rex is None and got_s != ref:
+                    ctx.violation("C09:dumps:differs-from-class-method" + ("-after-rewrite" if i else ""),
+                                  f"ml.dumps(<{o}>, {fmt!r}) call {i + 1}: text differs from dumps_{fmt} of the current object",
+                                  {"target_sequence": {"fmt": fmt, "otype": o, "step": i}})
+                    break
+
+
+def string_sequences(ctx, spy, contents: dict):
+    """the same data string loaded again with another name / class, different strings alternating"""
+    import molli as ml
+
+    for fmt in ("xyz", "mol2"):
+        texts = contents.get(fmt, [])[:2]
+        if not texts:
+            continue
+        plan = []
+        for t in texts + texts[:1]:
+            for o in L.OTYPES:
+                for name in (None, L.GIVEN_NAME, "second_name"):
+                    plan.append((t, o, name))
+        for e in ("loads", "loads_all"):
+            for i, (t, o, name) in enumerate(plan):
+                if e == "loads_all" and o == "ensemble":
+                    continue
+                kw = {"name": name} if name else {}
+                try:
+                    got, gex = getattr(ml, e)(t, fmt, otype=L.otype_arg(o), **kw), None
+                except Exception as ex:  # noqa: BLE001
+                    got, gex = None, ex
+                try:
+                    ref, rex = getattr(L.otype_cls(o), f"{e}_{fmt}")(t, **kw), None
+                except Exception as ex:  # noqa: BLE001
+                    ref, rex = None, ex
+                ctx.case(f"sequence:{e}:{fmt}:{i}", nontrivial=i > 0 and rex is None)
+                ctx.count(f"sequence:{e}:{fmt}")
+                bad = exc_name(gex) != exc_name(rex) or (rex is None and canon_value(got) != canon_value(ref))
+                if bad:
+                    ctx.violation(f"C09:{e}:differs-from-class-method-in-a-sequence",
+                                  f"ml.{e}(<{fmt} text>, otype={o}, name={name!r}) as call {i + 1} of a sequence differs from the class method",
+                                  {"string_sequence": {"fmt": fmt, "entry": e, "step": i, "texts": texts}})
+                    break
+
+
 def unsupported_cases(ctx, spy, sample):
     """every unsupported format string is a ValueError, nothing is written, the caller's stream stays open"""
     import molli as ml
@@ -418,22 +558,27 @@ def unsupported_cases(ctx, spy, sample):
     for fs in [L.UNSUPPORTED_TABLE_FMT] + L.UNSUPPORTED_MORE:
         for e in L.ENTRIES:
             for k in L.KINDS:
-                cell = (e, "unsupported", k, "molecule", "notgiven")
-                if not L.applicable(cell):
-                    continue
-                with warnings.catch_warnings():
-                    warnings.simplefilter("ignore")
-                    obs = L.call_entry(spy, cell, sample, fs, out_name="unsup")
-                ctx.case(f"unsupported:{e}:{k}:{fs!r}", nontrivial=True)
-                ctx.count("unsupported-format-strings")
-                tag = (cell, sample, f"fmt={fs!r}")
-                if not isinstance(obs["exc"], ValueError) or type(obs["exc"]) is not ValueError:
-                    report(ctx, f"C09:{e}:unsupported-format-not-valueerror", tag,
-                           f"{exc_name(obs['exc']) or 'returned ' + type(obs['ret']).__name__}", fs)
-                if obs["calls"]:
-                    report(ctx, f"C09:{e}:codec-reached-for-unsupported-format", tag, obs["calls"][0]["meth"], fs)
-                if obs["caller_stream"] is not None and (obs["caller_stream"].closed or obs["written"] != obs["before"]):
-                    report(ctx, "C09:dump:stream-ownership", tag, "caller's stream closed or written to", fs)
+                for pf in (L.PATHFORMS if k == "path" else L.PATHFORMS[:1]):
+                    cell = (e, "unsupported", k, "molecule", "notgiven", pf)
+                    if not L.applicable(cell):
+                        continue
+                    if fs == "" and pf not in ("explicitMatching", "explicitNoSuffix"):
+                        continue     # an empty format string reads as "no format given": the suffix may then decide
+                    with warnings.catch_warnings():
+                        warnings.simplefilter("ignore")
+                        obs = L.call_entry(spy, cell, sample, fs, out_name="unsup")
+                    ctx.case(f"unsupported:{e}:{k}:{pf}:{fs!r}", nontrivial=True)
+                    ctx.count("unsupported-format-strings")
+                    tag = (cell, sample, f"fmt={fs!r}")
+                    if not isinstance(obs["exc"], ValueError) or type(obs["exc"]) is not ValueError:
+                        report(ctx, f"C09:{e}:unsupported-format-not-valueerror", tag,
+                               f"{exc_name(obs['exc']) or 'returned ' + type(obs['ret']).__name__}", fs)
+                    if obs["calls"]:
+                        report(ctx, f"C09:{e}:codec-reached-for-unsupported-format", tag, obs["calls"][0]["meth"], fs)
+                    if obs["caller_stream"] is not None and (obs["caller_stream"].closed or obs["written"] != obs["before"]):
+                        report(ctx, "C09:dump:stream-ownership", tag, "caller's stream closed or written to", fs)
+                    if obs["target_path"] is not None and obs["written"]:
+                        report(ctx, "C09:dump:text-written-for-unsupported-format", tag, "the target file received text", fs)
     # format deduced from a suffix that names no supported format / no suffix at all
     for e in ("load", "load_all"):
         for suffix in (".pdb", "", ".XYZ"):
@@ -446,8 +591,8 @@ def unsupported_cases(ctx, spy, sample):
                 res = type(ex).__name__
             ctx.case(f"unsupported-suffix:{e}:{suffix!r}")
             if res != "ValueError":
-                cell = (e, "unsupported", "path", "molecule", "notgiven")
-                report(ctx, f"C09:{e}:unsupported-format-not-valueerror", (cell, sample, f"suffix={suffix!r}"), res, None)
+                cell = (e, "unsupported", "path", "molecule", "notgiven", "deduced")
+                report(ctx, f"C09:{e}:unsupported-format-not-valueerror", (cell, sample, f"suffix={suffix!r}"), res, suffix[1:])
 
 
 # --------------------------------------------------------------------------------------
@@ -456,10 +601,13 @@ def run(ctx):
     from harness.gen import Dispatch as G
 
     ctx.exhaustive = True
-    ctx.rule = ("(1) every cell of the 6x4x3x3x2 matrix (432, exhaustive) is one case; non-trivial = the cell lies in the "
-                "domain of its entry point (132 cells) — it is really called with spies installed. (2) content cases: "
-                "(applicable cell, input sample, call variant [explicit format / format from suffix / str path / mode w / "
-                "append to existing file]); samples = bundled xyz/mol2/cdxml files and generated multi-frame molecules "
+    ctx.rule = ("(1) every cell of the 6x4x3x3x2x5 matrix (2160, exhaustive; the sixth dimension is the form of a path argument: "
+                "explicit format with matching / no / other supported / unsupported suffix, or format deduced from the suffix) is "
+                "one case; non-trivial = the cell lies in the domain of its entry point (372 cells) — it is really called with "
+                "spies installed. (2) content cases: (applicable cell, input sample, call variant [str path / mode w / append to "
+                "existing file]); (2b) sequences in one process: the same path rewritten with other content between calls (every "
+                "format, load and load_all, every class, with and without name), the same target dumped to again, the same "
+                "string loaded with other names / classes; samples = bundled xyz/mol2/cdxml files and generated multi-frame molecules "
                 "(0..13 atoms, 1..7 frames, random names, some empty sources); non-trivial = the class method returns "
                 "(a raising class method is compared by exception class only); distinct by (cell, sample, variant). "
                 "(3) unsupported format strings x entry points x target kinds, suffix deduction, CDXML keys.")
@@ -485,7 +633,7 @@ def run(ctx):
         crs = ",".join(f"{L.LEAN_OTYPE[o]}:{L.LEAN_ENTRY[e]}:{f}" for o, e, f in triples) or "-"
         ctx.extra_cov["class_methods_raising_on_probe"] = [list(t) for t in triples]
         cells = list(L.all_cells())
-        lines = [f"spec {crs} {L.LEAN_ENTRY[e]} {f} {k} {o} {L.LEAN_NAME[n]}" for (e, f, k, o, n) in cells]
+        lines = [f"spec {crs} {L.LEAN_ENTRY[e]} {f} {k} {o} {L.LEAN_NAME[n]} {pf}" for (e, f, k, o, n, pf) in cells]
         outs = ctx.driver(lines)
         default = L.default_sample(work)
         for c, line in zip(cells, outs):
@@ -501,13 +649,13 @@ def run(ctx):
                 ctx.disagree("observed action differs from the specified action", L.cell_str(c), obs_key, line)
                 ctx.violation(kind, f"{describe_call(c, L.fmt_string(c))}: observed [{obs_key}] but the property demands [{line}]",
                               replay_obj(c, default, "table-probe", obs_key, line, L.fmt_string(c)))
-        ctx.sample({"cell": "load xyz path ensemble given", "observed": L.action_key(actions[("load", "xyz", "path", "ensemble", "given")])})
-        ctx.sample({"cell": "dump mol2 stream molecule notgiven",
-                    "observed": L.action_key(actions[("dump", "mol2", "stream", "molecule", "notgiven")])})
+        ctx.sample({"cell": "load xyz path ensemble given", "observed": L.action_key(actions[("load", "xyz", "path", "ensemble", "given", "explicitMatching")])})
+        ctx.sample({"cell": "dump xyz path molecule notgiven explicitOtherSuffix",
+                    "observed": L.action_key(actions[("dump", "xyz", "path", "molecule", "notgiven", "explicitOtherSuffix")])})
 
     # ---------------- (2) content agreement ----------------
     samples = corpus_samples(ctx, work) + bundled_samples(ctx, work)
-    ngen = 6 if ctx.quick() else 120
+    ngen = 6 if ctx.quick() else 90
     with L.Spy() as spy:
         for i in range(len(samples) + ngen):
             ctx.check_deadline()
@@ -520,8 +668,11 @@ def run(ctx):
                 ctx.count("samples:generated")
             if i in (0, len(samples)):
                 ctx.sample({"sample": s.tag, "cells": "all applicable cells x call variants"})
+            # the table is exhaustive over the path forms; the content run takes the non-plain forms on every third
+            # (thorough: every second) sample
+            all_forms = i % (3 if ctx.quick() else 2) == 0
             for c in L.all_cells():
-                if not L.applicable(c):
+                if not L.applicable(c) or (c[5] != "explicitMatching" and not all_forms):
                     continue
                 n = content_cell(ctx, spy, c, s)
                 if n:
@@ -531,6 +682,19 @@ def run(ctx):
                 cdxml_key_cases(ctx, spy, s)
             if i < 3 or not ctx.quick():
                 unsupported_cases(ctx, spy, s)
+            if i == len(samples) - 1:
+                # ---------------- (2b) sequences of calls: hidden state between calls ----------------
+                contents = {"xyz": [], "mol2": [], "cdxml": []}
+                for sm in samples:
+                    for fmt in contents:
+                        fp = Path(sm.files[fmt])
+                        if fp.stat().st_size < 250_000:
+                            t = fp.read_text()
+                            if t not in contents[fmt] and len(contents[fmt]) < (3 if ctx.quick() else 6):
+                                contents[fmt].append(t)
+                sequence_cases(ctx, spy, work, contents)
+                string_sequences(ctx, spy, contents)
+                target_sequences(ctx, spy, work, samples)
             # keep the scratch directory small
             gd = work / f"gen{i}"
             if gd.exists():
@@ -549,6 +713,18 @@ def replay(ctx, path):
     obj = json.loads(path.read_text())
     print(json.dumps({k: v for k, v in obj.items() if k != "replay"}, indent=1)[:1500])
     r = obj.get("replay") or {}
+    if "sequence" in r:
+        q = r["sequence"]
+        print(f"sequence on ONE path: ml.{q['entry']}(<{q['fmt']} path>, otype={q['otype']}, name={q['name']!r}); the file is rewritten "
+              f"before every call ({len(q['steps'])} contents)")
+
+        class _P:      # minimal stand-in: print violations instead of recording them
+            def case(self, *a, **k): pass
+            def count(self, *a, **k): pass
+            def violation(self, kind, what, rp): print("  VIOLATION", kind, "-", what)
+
+        seq_compare(_P(), ctx.scratch, q["fmt"], q["steps"], q["entry"], q["otype"], q["name"], q["as_str"], verbose=True)
+        return 0
     if "cell" not in r:
         print(json.dumps(obj, indent=1)[:3000])
         return 0
